@@ -43,7 +43,11 @@ class TopocentricFrame(frames.Frame):
 
         from ..propagators.listeners import stations_listeners, Listener
 
-        listeners = kwargs.setdefault("listeners", [])
+        # Work on a copy, in order to not modify the list provided by the caller
+        listeners = kwargs.get("listeners", [])
+        if isinstance(listeners, Listener):
+            listeners = [listeners]
+        listeners = kwargs["listeners"] = list(listeners)
         events = kwargs.pop("events", None)
         event_classes = tuple()
 
